@@ -47,7 +47,7 @@ def gen_system(rng):
             'framework': fw.tolist(), 'labels': ['A' if k % 2 == 0 else 'B' for k in range(ns)]}
 
 
-def analyse(lat, coords, sites, framework, labels, endpoints=None):
+def analyse(lat, coords, sites, framework, labels, endpoints=None, do_path=True):
     """run the analyses on one representation; returns a dict of canonical results"""
     lat = np.array(lat, float)
     coords = np.array(coords, float)
@@ -59,7 +59,9 @@ def analyse(lat, coords, sites, framework, labels, endpoints=None):
     with warnings.catch_warnings():
         warnings.simplefilter('ignore')
         try:
-            tr = traj.transitions_between_sites(st, 'Li', site_radius=1.0, site_inner_fraction=0.5)
+            # per-label radii (same value) every other system: exercises the label-group code path as well
+            rad = {lab: 1.0 for lab in set(labels)} if (len(sites) + T) % 2 else 1.0
+            tr = traj.transitions_between_sites(st, 'Li', site_radius=rad, site_inner_fraction=0.5)
         except ValueError:
             return None
         res['states'] = np.array(tr.states)
@@ -86,10 +88,13 @@ def analyse(lat, coords, sites, framework, labels, endpoints=None):
         fe = vol.get_free_energy(temperature=300.0)
         res['free_energy'] = np.array(fe.data)
         occ = np.argwhere(res['volume'] > 0)
-        if len(occ) >= 2:
+        if len(occ) >= 2 and do_path:
             a, b = (occ[0], occ[-1]) if endpoints is None else (np.array(endpoints[0]), np.array(endpoints[1]))
             try:
-                p = fe.optimal_path(start=tuple(a), stop=tuple(b), method='dijkstra')
+                # a floor of one count per voxel makes every voxel admissible, so that a path always exists
+                from gemdat.volume import Volume
+                fe_all = Volume(data=res['volume'] + 1, lattice=vol.lattice).get_free_energy(temperature=300.0)
+                p = fe_all.optimal_path(start=tuple(a), stop=tuple(b), method='dijkstra')
                 res['path'] = (tuple(map(int, a)), tuple(map(int, b)), float(p.total_energy))
             except Exception:  # noqa: BLE001
                 res['path'] = (tuple(map(int, a)), tuple(map(int, b)), None)
@@ -197,7 +202,8 @@ def check_case(out: Outcome, case, tag, rng):
         if kw.get('roll') and 'path' in base:
             shp = np.array(base['volume'].shape)
             ep = tuple((np.array(base['path'][k]) + np.array(kw['roll'])) % shp for k in (0, 1))
-        other = analyse(kw.get('lat', lat), kw.get('coords', coords), kw.get('sites', sites), kw.get('fw', fw), kw.get('labels', labels), endpoints=ep)
+        other = analyse(kw.get('lat', lat), kw.get('coords', coords), kw.get('sites', sites), kw.get('fw', fw), kw.get('labels', labels), endpoints=ep,
+                        do_path=what.startswith('translation:voxel') or what.startswith('rotation:signed'))
         out.evaluations += 1
         if other is None:
             out.fail('property', 'transformed-system-has-no-events', {**case, 'transformation': what})
